@@ -130,7 +130,12 @@ def make_switch(inner, sd, net_desc, T0):
 def run_case(case, obs):
     site_net = None
     if "site" in case:
-        d, site_net = build.site_scenario(case)
+        try:
+            d, site_net = build.site_scenario(case)
+        except (AttributeError, KeyError, ImportError) as e:
+            # the site factories or the private EVSE table are not reachable the way this harness reads them: not judged
+            obs.ev("site_scenario_unavailable_not_judged")
+            return
         case = dict(case, desc=d)
         obs.ev("runs_on_predefined_sites")
     d = case["desc"]
